@@ -44,6 +44,7 @@ pub fn parse_handle(expr_or_stmt: AST, it: &mut LexIterator) -> ParseResult {
     let start = it.start_pos("handle")?;
     it.eat(&Token::Handle, "handle")?;
     it.eat(&Token::NL, "handle")?;
+    it.eat_while(&Token::NL);
 
     let cases = it.parse_vec(&parse_match_cases, "handle", start)?;
     let end = cases.last().map_or(start, |stmt| stmt.pos);
